@@ -412,6 +412,30 @@ def _alias_rhs(spec, ctx, R):
             A = np.array(A_ref, copy=True)
             b = A[:, j:j + 1] if form != "row_view_transposed" else A[j:j + 1, :].T
     ctx.hit("forms:rhs_view_of_matrix")
+    # the same SparseQuaternionMatrix container solved again after its stored values were updated in place
+    A = G * c
+    Ssp = R.sparse_from_dense(A)
+    bq = refq.randq(rng, n, 1) * c
+    for step in ("first", "after_inplace_update", "after_second_update"):
+        if step != "first":
+            Ssp.real.data[...] = Ssp.real.data * 0.5
+            Ssp.j.data[...] = -Ssp.j.data
+            Ssp.real.setdiag(Ssp.real.diagonal() + 2.0 * c)
+        A_now = refq.qa(np.stack([Ssp.real.toarray(), Ssp.i.toarray(), Ssp.j.toarray(), Ssp.k.toarray()], axis=-1))
+        kappa = embed.cond(A_now)
+        floor = 1e3 * n * EPS * kappa
+        site = f"solve[none,sparse]:same_container:{step}"
+        tags = ["generic", f"scale={c:g}", "sparse_container_history"]
+        try:
+            with np.errstate(all="ignore"):
+                x, inf = R.solver.QGMRESSolver(tol=1e-10, verbose=False).solve(Ssp, bq)
+        except Exception as e:
+            ctx.check("M5_solves_within_n_cycles", False, site=site, tags=tags, detail={"exception": repr(e)[:200]})
+            continue
+        r = judge_solve(ctx, A_now, bq, x, inf, tol=1e-10, cap=None, prec=None, kappa=kappa, site=site, tags=tags)
+        if r is not None:
+            ctx.check("M5_solves_within_n_cycles", r, max(1e-10 * (1 + 1e-6), floor) + floor, site=site, tags=tags)
+    ctx.hit("history:sparse_container_updated_in_place")
 
 
 def _large(spec, ctx, R):
